@@ -39,6 +39,10 @@ def decorate(rng, src, allow_slashes_in_block=True):
             if k < 0.25 and ' ' in line.strip():
                 head, rest = line.strip().split(' ', 1)
                 line = rng.choice(['', '  ', '\t']) + head + rng.choice(['\t', '  ', ' \t ']) + rest
+            if rng.random() < 0.2:
+                # '#' and the directive name are two tokens: blanks may separate them
+                i_ = line.index('#')
+                line = line[:i_] + '#' + rng.choice([' ', '  ', '\t', ' \t']) + line[i_ + 1:]
             out.append(line)
             continue
         buf = []
